@@ -715,6 +715,37 @@ func (d *Driver) stepTamperedOrphan() {
 	}
 }
 
+// stepProposeCancelled: two tentative tips wait on the node - an overdrawing transfer sealed by an outsider and a
+// contract (which needs no funds walk) - and a client proposes under a context that is cancelled already. Whatever the
+// node answers, it must not seal a vertex on a tip it did not validate.
+func (d *Driver) stepProposeCancelled() {
+	w := d.W
+	n := d.randNode()
+	l, rr, wgt, ok := d.pickParents(n)
+	if !ok {
+		return
+	}
+	if t, ok := d.makeTransfer(true); ok && t.IssuerAddress != w.Sealers[0].Addr {
+		v := ForgeVertex(w.Sealers[0], t, l, rr, wgt, w.Now())
+		if w.Deliver(n, &v, "cancelled-proposal/overdrawing tip") == nil {
+			d.noteSealed(&v)
+			d.enqueue(n, &v)
+		}
+	}
+	ct := w.NewTrx(w.Users[0], w.Users[1].Addr, spice.Melange{}, []byte("contract tip"))
+	cv := ForgeVertex(w.Sealers[1], ct, l, rr, wgt, w.Now())
+	if w.Deliver(n, &cv, "cancelled-proposal/contract tip") == nil {
+		d.noteSealed(&cv)
+		d.enqueue(n, &cv)
+	}
+	pt := w.NewTrx(w.Users[0], w.Users[1].Addr, spice.Melange{}, []byte("proposed by an impatient client"))
+	if v, err := w.ProposeCancelled(n, &pt, "two tentative tips waiting"); err == nil {
+		d.noteSealed(&v)
+		d.enqueue(n, &v)
+	}
+	w.Res.Count("ops_propose_cancelled", 1)
+}
+
 func (d *Driver) stepTrust() {
 	r := d.W.R
 	n := d.randNode()
@@ -840,7 +871,11 @@ func (d *Driver) runBody(fund bool) {
 				d.stepTrust()
 			}
 		case x < p.PForge+p.PReplay+p.PRules+p.PTrust+p.PRetry:
-			d.W.Retry(d.randNode())
+			if r.Intn(3) == 0 {
+				d.stepProposeCancelled()
+			} else {
+				d.W.Retry(d.randNode())
+			}
 		case x < p.PForge+p.PReplay+p.PRules+p.PTrust+p.PRetry+p.PConcurrent:
 			d.stepConcurrent()
 		default:
